@@ -59,10 +59,7 @@ func calibrateGoid() {
 			g := getg()
 			var s sample
 			s.id = id
-			for w := range words {
-				v := *(*uint64)(unsafe.Pointer(g + uintptr(w)*8))
-				s.match[w] = v == id
-			}
+			scanG(g, id, s.match[:])
 			mu.Lock()
 			samples = append(samples, s)
 			mu.Unlock()
@@ -102,6 +99,14 @@ func calibrateGoid() {
 }
 
 //go:nocheckptr
+func scanG(g uintptr, id uint64, match []bool) {
+	for w := range match {
+		v := *(*uint64)(unsafe.Pointer(g + uintptr(w)*8))
+		match[w] = v == id
+	}
+}
+
+//go:nocheckptr
 func fastGoidRaw() uint64 {
 	return *(*uint64)(unsafe.Pointer(getg() + goidOffset))
 }
@@ -117,4 +122,3 @@ func Goid() uint64 {
 
 // GoidIsFast reports whether calibration succeeded (evidence only).
 func GoidIsFast() bool { goidCalOnce.Do(calibrateGoid); return goidFast }
-
